@@ -234,4 +234,31 @@ theorem small_facts (hu : UCWF u) {c : Char} (h : small_letter_char u c = true) 
 
 theorem gt_facts2 : ∀ x ∈ gtList, x ≠ '%' ∧ (x ≠ '.' → x ∉ specials) := by decide
 
+theorem ascii_alpha_sane : ∀ c : Char, c.toNat < 128 → asciiUC.is_alphabetic c = true →
+    asciiUC.is_whitespace c = false ∧ asciiUC.is_control c = false :=
+  ascii_all _ (by decide)
+
+theorem alpha_ascii_of_lt {c : Char} (h : c.isAlpha = true) : c.toNat < 128 := by
+  simp only [Char.isAlpha, Char.isUpper, Char.isLower, Bool.or_eq_true, Bool.and_eq_true, decide_eq_true_eq] at h
+  rcases h with h | h
+  · have h2 : c.val.toNat ≤ 90 := UInt32.le_iff_toNat_le.mp h.2
+    show c.val.toNat < 128; omega
+  · have h2 : c.val.toNat ≤ 122 := UInt32.le_iff_toNat_le.mp h.2
+    show c.val.toNat < 128; omega
+
+theorem asciiUC_wf : UCWF asciiUC :=
+  ⟨fun _ _ => rfl, fun _ _ => rfl, fun _ _ => rfl, fun _ _ => rfl, fun _ _ => rfl,
+   fun c h => ascii_alpha_sane c (alpha_ascii_of_lt h) h⟩
+
+theorem mkUC_wf (tbl : List (Nat × Nat)) : UCWF (mkUC tbl) := by
+  refine ⟨fun c h => by simp [mkUC, h], fun c h => by simp [mkUC, h], fun c h => by simp [mkUC, h],
+    fun c h => by simp [mkUC, h], fun c h => by simp [mkUC, h], ?_⟩
+  intro c h
+  by_cases hc : c.toNat < 128
+  · simp only [mkUC, hc, if_true] at h ⊢
+    exact ascii_alpha_sane c hc h
+  · simp only [mkUC, hc, if_false] at h ⊢
+    simp only [Bool.and_eq_true, Bool.not_eq_true'] at h
+    exact ⟨h.1.2, h.2⟩
+
 end Scryer.Quote
